@@ -757,36 +757,62 @@ class Tracer:
 
     def _comp(self, e, p, fi, depth):
         """comprehension: bind targets to each(<iter>), evaluate filters and element once (calls are recorded as
-        in-loop events); the value is the comprehension with outer locals substituted and bound names canonicalised"""
-        q = p
+        in-loop events, every fork of an inlined callee is followed); the value is the comprehension with outer locals
+        substituted and bound names canonicalised"""
         saved = {}
         bound = []
+        states = [p]
         for g in e.generators:
-            outs = self._expr(g.iter, q, fi, depth)
-            q, it = outs[0]
-            each = Val(ast.Call(func=ast.Name(id='each', ctx=ast.Load()), args=[it.ast], keywords=[]), tags=it.tags)
-            for x in ast.walk(g.target):
-                if isinstance(x, ast.Name):
-                    if x.id in q.env and x.id not in saved:
-                        saved[x.id] = q.env[x.id]
-                    bound.append(x.id)
-            self._bind(g.target, each, q, fi, e)
-            q.loop += 1
-            for c in g.ifs:
-                q, cv = self._expr(c, q, fi, depth)[0]
-                q.facts.append(('comprehension-filter: ' + cv.text, True))
+            nxt = []
+            for q in states:
+                for q2, it in self._expr(g.iter, q, fi, depth):
+                    if q2.status == 'raise':
+                        nxt.append(q2)
+                        continue
+                    each = Val(ast.Call(func=ast.Name(id='each', ctx=ast.Load()), args=[it.ast], keywords=[]), tags=it.tags)
+                    for x in ast.walk(g.target):
+                        if isinstance(x, ast.Name):
+                            if x.id in q2.env and x.id not in saved:
+                                saved[x.id] = q2.env[x.id]
+                            if x.id not in bound:
+                                bound.append(x.id)
+                    self._bind(g.target, each, q2, fi, e)
+                    q2.loop += 1
+                    cur = [q2]
+                    for c in g.ifs:
+                        c_next = []
+                        for q3 in cur:
+                            for q4, cv in self._expr(c, q3, fi, depth):
+                                if q4.status != 'raise':
+                                    q4.facts.append(('comprehension-filter: ' + cv.text, True))
+                                c_next.append(q4)
+                        cur = c_next
+                    nxt.extend(cur)
+            states = nxt
         elts = [e.key, e.value] if isinstance(e, ast.DictComp) else [e.elt]
-        vals = []
+        results = [(q, []) for q in states]
         for el in elts:
-            q, v = self._expr(el, q, fi, depth)[0]
-            vals.append(v)
-        q.loop -= len(e.generators)
-        for n in bound:
-            q.env.pop(n, None)
-        q.env.update(saved)
-        node = self._sub(e, q)
-        tags = frozenset().union(*[v.tags for v in vals])
-        return [(q, Val(node, tags=tags | {'comprehension'}, elems=None))]
+            nxt = []
+            for q, vals in results:
+                if q.status == 'raise':
+                    nxt.append((q, vals))
+                    continue
+                for q2, v in self._expr(el, q, fi, depth):
+                    nxt.append((q2, vals + [v]))
+            results = nxt
+        outs = []
+        for q, vals in results:
+            if q.status != 'raise':
+                q.loop -= len(e.generators)
+            for n in bound:
+                q.env.pop(n, None)
+            q.env.update(saved)
+            node = self._sub(e, q)
+            tags = frozenset().union(*[v.tags for v in vals]) if vals else frozenset()
+            outs.append((q, Val(node, tags=tags | {'comprehension'}, elems=None)))
+        if len(outs) > self.max_paths:
+            raise AnalysisError('tracer: path explosion in a comprehension of %s' % fi.qualname)
+        return outs
 
     # ------------------------------------------------------------------------------------------
     def _resolve(self, call, fi, fval, argvals=None):
